@@ -111,7 +111,7 @@ ConvOne(c, Arow, Frow) ==          \* one batch entry, one output channel: sum o
       sA == Strides(Radix(c.N, kA))   sF == Strides(Radix(c.M, kF))
       mp == PixSeq(c.M)
   IN [dims |-> o, k |-> kA + kF, p |-> (Arow[1].p + Frow[1].p) % 2,
-      val |-> [m \in 1..ProdSeq(ro) |->
+      val |-> Eager([m \in 1..ProdSeq(ro) |->
          LET dg == Unlin(m - 1, ro, so)
              i  == SubSeq(dg, 1, D)
              I  == SubSeq(dg, D + 1, D + kA)
@@ -121,7 +121,7 @@ ConvOne(c, Arow, Frow) ==          \* one batch entry, one output channel: sum o
                    a  == mp[((t - 1) % Len(mp)) + 1]
                    s  == Src(c, i, a)
                IN IF s = ZERO THEN 0
-                  ELSE Arow[ci].val[Lin(s \o I, sA) + 1] * Frow[ci].val[Lin(a \o J, sF) + 1]])]]
+                  ELSE Arow[ci].val[Lin(s \o I, sA) + 1] * Frow[ci].val[Lin(a \o J, sF) + 1]])])]
 Convolve(c, A, F) == [b \in 1..Len(A) |-> [co \in 1..Len(F) |-> ConvOne(c, A[b], F[co])]]
 
 (* fused convolve-and-contract: image index r is contracted with filter index r, r = 1..kA *)
